@@ -118,10 +118,11 @@ fn res_of(shape: &str) -> (IpResources, IpResources, AsResources) {
             IpResources::blocks([v6("2001:db8::/32"), v6("2001:db9::-2001:db9::17"), v6("2001:dba::1-2001:dba::fffe"), v6("2001:dbb::-2001:dbb::2")].into_iter().collect::<IpBlocks>()),
             AsResources::blocks([asr(65000, 65010), AsBlock::Id(Asn::from_u32(64496)), asr(65011, 65020)].into_iter().collect::<AsBlocks>()),
         ),
+        // both ends of each number space, the upper end given first (the successor of the last number is not the first)
         "ends" => (
-            IpResources::blocks([v4("0.0.0.0/32"), v4("255.255.255.254-255.255.255.255")].into_iter().collect::<IpBlocks>()),
-            IpResources::blocks([v6("::/128"), v6("ffff:ffff:ffff:ffff:ffff:ffff:ffff:ffff/128")].into_iter().collect::<IpBlocks>()),
-            AsResources::blocks([AsBlock::Id(Asn::from_u32(0)), AsBlock::Id(Asn::from_u32(u32::MAX))].into_iter().collect::<AsBlocks>()),
+            IpResources::blocks([v4("255.255.255.254-255.255.255.255"), v4("0.0.0.0/32"), v4("255.0.0.0/9")].into_iter().collect::<IpBlocks>()),
+            IpResources::blocks([v6("ffff:ffff:ffff:ffff:ffff:ffff:ffff:ffff/128"), v6("::/128"), v6("ff00::/9")].into_iter().collect::<IpBlocks>()),
+            AsResources::blocks([asr(4_294_967_000, u32::MAX), asr(0, 5), AsBlock::Id(Asn::from_u32(100))].into_iter().collect::<AsBlocks>()),
         ),
         "woven" => (
             IpResources::blocks([v4("10.0.0.0/24"), v4("10.0.2.0/24"), v4("10.0.4.0/24"), v4("10.0.1.0/24"), v4("10.0.3.0/24"),
@@ -241,6 +242,33 @@ fn run_case(ctx: &mut Ctx, c: &Value) -> R<()> {
             let rc2 = v2.or_else(|x| e(&format!("{kind}:validate-built"), x))?;
             same!(kind, "validated_resources", format!("{} {} {}", rc.v4_resources().as_v4(), rc.v6_resources().as_v6(), rc.as_resources()),
                   format!("{} {} {}", rc2.v4_resources().as_v4(), rc2.v6_resources().as_v6(), rc2.as_resources()));
+            if !ca {
+                // an EE certificate is also acceptable as a detached one; so is the same certificate built without the signedObject
+                // access description (what RTAs carry), through the entry point that takes the instant and - when the window
+                // contains the wall clock - the one that reads the clock itself
+                twin.clone().validate_detached_ee_at(&issuer, true, now).or_else(|x| e("cert_ee:validate-detached", x))?;
+                let mut tbs2 = TbsCert::new(serial, pki.pubkey("k0").to_subject_name(), validity, None, pki.pubkey("k1"), KeyUsage::Ee, Overclaim::Refuse);
+                tbs2.set_authority_key_identifier(Some(pki.pubkey("k0").key_identifier()));
+                tbs2.set_crl_uri(Some(rsync("rsync://repo.example/m/ta.crl")));
+                tbs2.set_ca_issuer(Some(rsync("rsync://repo.example/m/ta.cer")));
+                let (v4, v6, asn) = res_of(c["res"].as_str().unwrap());
+                tbs2.set_v4_resources(v4);
+                tbs2.set_v6_resources(v6);
+                tbs2.set_as_resources(asn);
+                let det = tbs2.into_cert(&pki.signer, &k0).map_err(|x| ("cert:build".to_string(), x.to_string()))?;
+                let det_twin = Cert::decode(det.to_captured().into_bytes()).or_else(|x| e("cert_ee:decode-detached", x))?;
+                cert_accessors("cert_ee:detached", &det, &det_twin)?;
+                let d1 = det_twin.clone().validate_detached_ee_at(&issuer, true, now).or_else(|x| e("cert_ee:validate-detached", x))?;
+                same!(kind, "detached:validated_resources", format!("{} {} {}", rc.v4_resources().as_v4(), rc.v6_resources().as_v6(), rc.as_resources()),
+                      format!("{} {} {}", d1.v4_resources().as_v4(), d1.v6_resources().as_v6(), d1.as_resources()));
+                if c["times"] == "far" {
+                    det_twin.clone().validate_detached_ee(&issuer, true).or_else(|x| e("cert_ee:validate-detached:clock", x))?;
+                    twin.clone().validate_detached_ee(&issuer, true).or_else(|x| e("cert_ee:validate-detached:clock", x))?;
+                    twin.clone().validate_ee(&issuer, true).or_else(|x| e("cert_ee:validate:clock", x))?;
+                }
+            } else if c["times"] == "far" {
+                twin.clone().validate_ca(&issuer, true).or_else(|x| e("cert_ca:validate:clock", x))?;
+            }
         }
         "crl" => {
             let entries: Vec<CrlEntry> = items.iter().map(|i| CrlEntry::new(serial_of(c, *i as u8), validity.not_before())).collect();
